@@ -9,7 +9,7 @@
        satisfies [Gc] preserves the invariant.
    B.  every command only emits effects satisfying [Gc] ([run_cmd_conn]).
    C.  the theorems about [step], [run], prefixes of traces, injected faults,
-       the K8 crash window of [branch --rename], and the counterexamples that
+       the (closed) K8 crash window of [branch --rename], and the counterexamples that
        show why the hypotheses are needed.
 
    Two situations are excluded, both flagged by a predicate on the FINAL
@@ -499,10 +499,8 @@ Definition HeadOk (w : world) : Prop := w_refs w = [] \/ am_mem (w_refs w) (w_he
 Definition Bad (w : world) : Prop :=
   w_coll w = true \/ exists id p, st_lookup (w_objs w) id = Some p /\ (2 ^ 63 <= lenN p)%N.
 
-(* [b = true]: the HEAD clause is not claimed (needed for the crash window of
-   [branch --rename]); [b = false]: it is *)
-Definition Good (b : bool) (w : world) : Prop := GoodNH w /\ (b = true \/ HeadOk w).
-Definition CInv (b : bool) (w : world) : Prop := ~ Bad w -> Good b w.
+Definition Good (w : world) : Prop := GoodNH w /\ HeadOk w.
+Definition CInv (w : world) : Prop := ~ Bad w -> Good w.
 
 Definition ConnectedNoHead (w : world) : Prop :=
   (forall n id, am_get (w_refs w) n = Some id -> commit_ok (w_objs w) id) /\
@@ -525,9 +523,9 @@ Qed.
 Lemma connected_split : forall w, Connected w <-> ConnectedNoHead w /\ HeadOk w.
 Proof. intros w. unfold Connected, ConnectedNoHead, HeadOk. tauto. Qed.
 
-Lemma good_connected : forall w, Good false w -> Connected w.
+Lemma good_connected : forall w, Good w -> Connected w.
 Proof.
-  intros w [Hg [Hb|Hh]]; [discriminate Hb|]. apply connected_split. split; [apply good_connected_nh; exact Hg | exact Hh].
+  intros w [Hg Hh]. apply connected_split. split; [apply good_connected_nh; exact Hg | exact Hh].
 Qed.
 
 (** ** [Bad] is sticky *)
@@ -558,14 +556,17 @@ Definition obj_good (st : store) (k : kind) (d : bytes) : Prop :=
   | _ => True
   end.
 
-Definition Gc (b : bool) (w : world) (e : effect) : Prop :=
+Definition Gc (w : world) (e : effect) : Prop :=
   match e with
   | EInit => w_inited w = false
   | EPutObj id p => exists k d, id = obj_id k d /\ p = payload k d /\
                                ((lenN d < 2 ^ 63)%N -> obj_good (w_objs w) k d)
   | ESetRef n id => w_inited w = true /\ commit_ok (w_objs w) id /\ (w_refs w = [] -> n = w_head w)
   | EDelRef n => n <> w_head w
-  | ERenameRef o n => am_mem (w_refs w) o = true /\ (b = true \/ o <> w_head w)
+  (* no command emits [ERenameRef] any more ([branch --rename] writes the new
+     branch, re-points HEAD, removes the old branch); as a single effect it is
+     only safe on a branch HEAD does not name *)
+  | ERenameRef o n => am_mem (w_refs w) o = true /\ o <> w_head w
   | ESetHead n => w_refs w = [] \/ am_mem (w_refs w) n = true
   | ESetIndex es => Forall (entry_good (w_objs w)) es
   | ESetLcfg c => forall cf, cfg_of c = Some cf -> cfg_nonl cf
@@ -576,13 +577,13 @@ Definition Gc (b : bool) (w : world) (e : effect) : Prop :=
 
 (* the form used with the program logic: the guarantee is only owed when the
    effect does not make the world [Bad] *)
-Definition CG (b : bool) (w : world) (e : effect) : Prop := ~ Bad (apply_effect e w) -> Gc b w e.
+Definition CG (w : world) (e : effect) : Prop := ~ Bad (apply_effect e w) -> Gc w e.
 
 (** ** preservation, effect by effect *)
-Lemma good_put : forall b w id p, Good b w -> Gc b w (EPutObj id p) ->
-  ~ Bad (apply_effect (EPutObj id p) w) -> Good b (apply_effect (EPutObj id p) w).
+Lemma good_put : forall w id p, Good w -> Gc w (EPutObj id p) ->
+  ~ Bad (apply_effect (EPutObj id p) w) -> Good (apply_effect (EPutObj id p) w).
 Proof.
-  intros b w id p [Hg Hh] (k & d & Hid & Hp & Hobj) Hnb.
+  intros w id p [Hg Hh] (k & d & Hid & Hp & Hobj) Hnb.
   assert (Hcoll : st_collides (w_objs w) id p = false).
   { destruct (st_collides (w_objs w) id p) eqn:E; [|reflexivity].
     exfalso. apply Hnb. left. rewrite w_coll_EPutObj, E. apply orb_true_r. }
@@ -622,7 +623,7 @@ Proof.
     + apply (g_wt w Hg).
     + destruct (g_cfg w Hg) as [H1 H2]. split; autorewrite with wfields; assumption.
     + apply (g_init w Hg).
-  - destruct Hh as [Hh|Hh]; [left; exact Hh|]. right. unfold HeadOk in *. autorewrite with wfields. exact Hh.
+  - unfold HeadOk in *. autorewrite with wfields. exact Hh.
 Qed.
 
 (* effects that leave the store alone: the store-level clauses carry over *)
@@ -632,9 +633,9 @@ Ltac frame_store Hg :=
 Lemma HeadOk_frame : forall w w', w_refs w' = w_refs w -> w_head w' = w_head w -> HeadOk w -> HeadOk w'.
 Proof. intros w w' Hr Hh H. unfold HeadOk in *. rewrite Hr, Hh. exact H. Qed.
 
-Lemma good_other : forall b w e, Good b w -> Gc b w e -> is_put e = false -> Good b (apply_effect e w).
+Lemma good_other : forall w e, Good w -> Gc w e -> is_put e = false -> Good (apply_effect e w).
 Proof.
-  intros b w e [Hg Hh] Hgc Hput.
+  intros w e [Hg Hh] Hgc Hput.
   assert (Hobjs : w_objs (apply_effect e w) = w_objs w) by (apply w_objs_not_put; exact Hput).
   destruct e; try discriminate Hput; cbn [Gc] in Hgc.
   - (* EInit *)
@@ -647,7 +648,7 @@ Proof.
       * destruct (g_cfg w Hg) as [H1 H2]. split; autorewrite with wfields; [|exact H2].
         intros c Hc. cbn [cfg_of] in Hc. injection Hc as <-. constructor.
       * left. reflexivity.
-    + right. left. autorewrite with wfields. exact Hrefs.
+    + left. autorewrite with wfields. exact Hrefs.
   - (* ESetRef *)
     destruct Hgc as (Hin & Hok & Hhd). split.
     + constructor; autorewrite with wfields; try frame_store Hg.
@@ -657,7 +658,7 @@ Proof.
       * apply (g_wt w Hg).
       * destruct (g_cfg w Hg) as [H1 H2]. split; autorewrite with wfields; assumption.
       * left. exact Hin.
-    + destruct Hh as [Hh|Hh]; [left; exact Hh|]. right. right. unfold am_mem. autorewrite with wfields.
+    + right. unfold am_mem. autorewrite with wfields.
       destruct (bytes_eq_dec (w_head w) name) as [<-|Hne].
       * rewrite am_get_set_same. reflexivity.
       * rewrite am_get_set_other by exact Hne. destruct Hh as [Hh|Hh]; [|exact Hh].
@@ -671,11 +672,11 @@ Proof.
       * apply (g_wt w Hg).
       * destruct (g_cfg w Hg) as [H1 H2]. split; autorewrite with wfields; assumption.
       * destruct (g_init w Hg) as [H|H]; [left; exact H | right; rewrite H; reflexivity].
-    + destruct Hh as [Hh|Hh]; [left; exact Hh|]. right. unfold HeadOk. autorewrite with wfields.
+    + unfold HeadOk. autorewrite with wfields.
       destruct Hh as [Hh|Hh]; [left; rewrite Hh; reflexivity|]. right. unfold am_mem.
       rewrite am_get_del_other by (intro X; apply Hgc; symmetry; exact X). exact Hh.
   - (* ERenameRef *)
-    destruct Hgc as [Hmem Hhd]. apply am_mem_true in Hmem. destruct Hmem as [id Hid].
+    destruct Hgc as [Hmem Hne]. apply am_mem_true in Hmem. destruct Hmem as [id Hid].
     assert (Hinit : w_inited w = true).
     { destruct (g_init w Hg) as [H|H]; [exact H|]. rewrite H in Hid. discriminate Hid. }
     split.
@@ -688,8 +689,7 @@ Proof.
       * apply (g_wt w Hg).
       * destruct (g_cfg w Hg) as [H1 H2]. split; autorewrite with wfields; assumption.
       * left. exact Hinit.
-    + destruct Hh as [Hh|Hh]; [left; exact Hh|]. destruct Hhd as [Hb|Hne]; [left; exact Hb|].
-      right. right. unfold am_mem. autorewrite with wfields. rewrite Hid.
+    + right. unfold am_mem. autorewrite with wfields. rewrite Hid.
       destruct Hh as [Hh|Hh]; [rewrite Hh in Hid; discriminate Hid|].
       destruct (bytes_eq_dec (w_head w) new) as [<-|Hne2].
       * rewrite am_get_set_same. reflexivity.
@@ -703,7 +703,7 @@ Proof.
       * apply (g_wt w Hg).
       * destruct (g_cfg w Hg) as [H1 H2]. split; autorewrite with wfields; assumption.
       * apply (g_init w Hg).
-    + right. unfold HeadOk. autorewrite with wfields. exact Hgc.
+    + unfold HeadOk. autorewrite with wfields. exact Hgc.
   - (* ESetIndex *)
     split.
     + constructor; autorewrite with wfields; try frame_store Hg.
@@ -712,7 +712,7 @@ Proof.
       * apply (g_wt w Hg).
       * destruct (g_cfg w Hg) as [H1 H2]. split; autorewrite with wfields; assumption.
       * apply (g_init w Hg).
-    + destruct Hh as [Hh|Hh]; [left; exact Hh|]. right. revert Hh. apply HeadOk_frame; autorewrite with wfields; reflexivity.
+    + revert Hh. apply HeadOk_frame; autorewrite with wfields; reflexivity.
   - (* EAppendHlog *)
     split.
     + constructor; autorewrite with wfields; try frame_store Hg.
@@ -721,7 +721,7 @@ Proof.
       * apply (g_wt w Hg).
       * destruct (g_cfg w Hg) as [H1 H2]. split; autorewrite with wfields; assumption.
       * apply (g_init w Hg).
-    + destruct Hh as [Hh|Hh]; [left; exact Hh|]. right. revert Hh. apply HeadOk_frame; autorewrite with wfields; reflexivity.
+    + revert Hh. apply HeadOk_frame; autorewrite with wfields; reflexivity.
   - (* EAppendBlog *)
     split.
     + constructor; autorewrite with wfields; try frame_store Hg.
@@ -730,7 +730,7 @@ Proof.
       * apply (g_wt w Hg).
       * destruct (g_cfg w Hg) as [H1 H2]. split; autorewrite with wfields; assumption.
       * apply (g_init w Hg).
-    + destruct Hh as [Hh|Hh]; [left; exact Hh|]. right. revert Hh. apply HeadOk_frame; autorewrite with wfields; reflexivity.
+    + revert Hh. apply HeadOk_frame; autorewrite with wfields; reflexivity.
   - (* EDelBlog *)
     split.
     + constructor; autorewrite with wfields; try frame_store Hg.
@@ -739,7 +739,7 @@ Proof.
       * apply (g_wt w Hg).
       * destruct (g_cfg w Hg) as [H1 H2]. split; autorewrite with wfields; assumption.
       * apply (g_init w Hg).
-    + destruct Hh as [Hh|Hh]; [left; exact Hh|]. right. revert Hh. apply HeadOk_frame; autorewrite with wfields; reflexivity.
+    + revert Hh. apply HeadOk_frame; autorewrite with wfields; reflexivity.
   - (* ESetLcfg *)
     split.
     + constructor; autorewrite with wfields; try frame_store Hg.
@@ -748,7 +748,7 @@ Proof.
       * apply (g_wt w Hg).
       * destruct (g_cfg w Hg) as [H1 H2]. split; autorewrite with wfields; assumption.
       * apply (g_init w Hg).
-    + destruct Hh as [Hh|Hh]; [left; exact Hh|]. right. revert Hh. apply HeadOk_frame; autorewrite with wfields; reflexivity.
+    + revert Hh. apply HeadOk_frame; autorewrite with wfields; reflexivity.
   - (* ESetGcfg *)
     split.
     + constructor; autorewrite with wfields; try frame_store Hg.
@@ -757,7 +757,7 @@ Proof.
       * apply (g_wt w Hg).
       * destruct (g_cfg w Hg) as [H1 H2]. split; autorewrite with wfields; assumption.
       * apply (g_init w Hg).
-    + destruct Hh as [Hh|Hh]; [left; exact Hh|]. right. revert Hh. apply HeadOk_frame; autorewrite with wfields; reflexivity.
+    + revert Hh. apply HeadOk_frame; autorewrite with wfields; reflexivity.
   - (* EWriteFile *)
     split.
     + constructor; autorewrite with wfields; try frame_store Hg.
@@ -767,7 +767,7 @@ Proof.
         pose proof (g_wt w Hg) as Hr. rewrite Forall_forall in Hr. apply (Hr kv Hkv).
       * destruct (g_cfg w Hg) as [H1 H2]. split; autorewrite with wfields; assumption.
       * apply (g_init w Hg).
-    + destruct Hh as [Hh|Hh]; [left; exact Hh|]. right. revert Hh. apply HeadOk_frame; autorewrite with wfields; reflexivity.
+    + revert Hh. apply HeadOk_frame; autorewrite with wfields; reflexivity.
   - (* ERemovePath *)
     split.
     + constructor; autorewrite with wfields; try frame_store Hg.
@@ -777,7 +777,7 @@ Proof.
         pose proof (g_wt w Hg) as Hr. rewrite Forall_forall in Hr. apply (Hr kv Hkv).
       * destruct (g_cfg w Hg) as [H1 H2]. split; autorewrite with wfields; assumption.
       * apply (g_init w Hg).
-    + destruct Hh as [Hh|Hh]; [left; exact Hh|]. right. revert Hh. apply HeadOk_frame; autorewrite with wfields; reflexivity.
+    + revert Hh. apply HeadOk_frame; autorewrite with wfields; reflexivity.
   - (* EMkdirAll *)
     split.
     + constructor; autorewrite with wfields; try frame_store Hg.
@@ -786,12 +786,12 @@ Proof.
       * apply (g_wt w Hg).
       * destruct (g_cfg w Hg) as [H1 H2]. split; autorewrite with wfields; assumption.
       * apply (g_init w Hg).
-    + destruct Hh as [Hh|Hh]; [left; exact Hh|]. right. revert Hh. apply HeadOk_frame; autorewrite with wfields; reflexivity.
+    + revert Hh. apply HeadOk_frame; autorewrite with wfields; reflexivity.
 Qed.
 
-Theorem Inv_step : forall b w e, CInv b w -> CG b w e -> CInv b (apply_effect e w).
+Theorem Inv_step : forall w e, CInv w -> CG w e -> CInv (apply_effect e w).
 Proof.
-  intros b w e Hi Hg Hnb.
+  intros w e Hi Hg Hnb.
   assert (Hnb0 : ~ Bad w) by (intro H; apply Hnb; apply bad_sticky; exact H).
   specialize (Hi Hnb0). specialize (Hg Hnb).
   destruct (is_put e) eqn:Ep.
@@ -800,12 +800,12 @@ Proof.
 Qed.
 
 (* the rule used at every [emit] *)
-Lemma emit_ok : forall b w e,
-  (~ Bad (apply_effect e w) -> ~ Bad w -> GoodNH w -> (b = true \/ HeadOk w) -> Gc b w e) ->
-  CInv b w -> CG b w e /\ CInv b (apply_effect e w).
+Lemma emit_ok : forall w e,
+  (~ Bad (apply_effect e w) -> ~ Bad w -> GoodNH w -> HeadOk w -> Gc w e) ->
+  CInv w -> CG w e /\ CInv (apply_effect e w).
 Proof.
-  intros b w e H Hi.
-  assert (Hcg : CG b w e).
+  intros w e H Hi.
+  assert (Hcg : CG w e).
   { intro Hnb. assert (Hnb0 : ~ Bad w) by (intro X; apply Hnb; apply bad_sticky; exact X).
     destruct (Hi Hnb0) as [Hg Hh]. apply H; assumption. }
   split; [exact Hcg | apply Inv_step; assumption].
@@ -1215,13 +1215,13 @@ Proof.
   repeat (split; [assumption|]). intro Hnb. apply H7. intro X. apply Hnb. apply bad_sticky. exact X.
 Qed.
 
-Lemma put_trees_hoare : forall b w0 l acc,
+Lemma put_trees_hoare : forall w0 l acc,
   (~ Bad w0 -> ready_list (map e_id (idx_of w0)) acc l) ->
-  hoare (CInv b) (CG b) (fun w => same_meta w0 w /\ retrievable w acc)
+  hoare CInv CG (fun w => same_meta w0 w /\ retrievable w acc)
         (iterM (fun d => put_obj KTree d ;;; ret tt) l)
         (fun _ w => same_meta w0 w /\ retrievable w (acc ++ l)).
 Proof.
-  intros b w0. induction l as [|a l IH]; intros acc Hr.
+  intros w0. induction l as [|a l IH]; intros acc Hr.
   - cbn [iterM]. apply hoare_ret. intros w _ H. rewrite app_nil_r. exact H.
   - cbn [iterM]. apply hoare_bind with (R := fun _ w => same_meta w0 w /\ retrievable w (acc ++ [a])).
     + apply hoare_world. intros w Hi [Hm Hret]. unfold put_obj. hsteps.
@@ -1240,14 +1240,14 @@ Proof.
 Qed.
 
 (* the tree-writing prefix of [commit] and [write-tree] *)
-Lemma write_trees_at : forall b w tr B (g : unit -> M B) Q,
+Lemma write_trees_at : forall w tr B (g : unit -> M B) Q,
   write_tree_top (idx_of w) = Some tr ->
-  (forall w', CInv b w' -> same_meta w w' -> retrievable w' (snd tr ++ [fst tr]) ->
-     hoare (CInv b) (CG b) (eq w') (g tt) Q) ->
-  hoare (CInv b) (CG b) (eq w)
+  (forall w', CInv w' -> same_meta w w' -> retrievable w' (snd tr ++ [fst tr]) ->
+     hoare CInv CG (eq w') (g tt) Q) ->
+  hoare CInv CG (eq w)
         (bind (iterM (fun d => put_obj KTree d ;;; ret tt) (snd tr ++ [fst tr])) g) Q.
 Proof.
-  intros b w tr B g Q Htr Hg. apply at_Inv. intro Hi.
+  intros w tr B g Q Htr Hg. apply at_Inv. intro Hi.
   apply at_bind_call with (P := fun w' => same_meta w w' /\ retrievable w' [])
                           (R := fun _ w' => same_meta w w' /\ retrievable w' ([] ++ snd tr ++ [fst tr])).
   - apply put_trees_hoare. intro Hnb. destruct (Hi Hnb) as [Hgood _].
@@ -1257,9 +1257,9 @@ Proof.
   - intros [] w' Hi' [Hm Hr]. apply Hg; assumption.
 Qed.
 
-Lemma cmd_write_tree_conn : forall b, emits (CInv b) (CG b) cmd_write_tree.
+Lemma cmd_write_tree_conn : emits CInv CG cmd_write_tree.
 Proof.
-  intro b. hinline. hsteps.
+  hinline. hsteps.
   apply write_trees_at; [assumption|]. intros w' Hi' Hm Hr. hsteps. exact Logic.I.
 Qed.
 
@@ -1273,10 +1273,10 @@ Lemma later_step : forall w w' e, later w w' -> later w (apply_effect e w').
 Proof. intros w w' e H Hnb. apply H. intro X. apply Hnb. apply bad_sticky. exact X. Qed.
 
 (* at the last effect of a procedure the goal also carries the postcondition *)
-Lemma emit_ok_last : forall b w e (Q : Prop),
-  (~ Bad (apply_effect e w) -> ~ Bad w -> GoodNH w -> (b = true \/ HeadOk w) -> Gc b w e) ->
-  CInv b w -> Q -> CG b w e /\ CInv b (apply_effect e w) /\ Q.
-Proof. intros b w e Q H Hi Hq. destruct (emit_ok b w e H Hi) as [H1 H2]. auto. Qed.
+Lemma emit_ok_last : forall w e (Q : Prop),
+  (~ Bad (apply_effect e w) -> ~ Bad w -> GoodNH w -> HeadOk w -> Gc w e) ->
+  CInv w -> Q -> CG w e /\ CInv (apply_effect e w) /\ Q.
+Proof. intros w e Q H Hi Hq. destruct (emit_ok w e H Hi) as [H1 H2]. auto. Qed.
 
 (* an effect with nothing to show *)
 Ltac emit_triv := apply emit_ok; [intros; exact Logic.I | assumption].
@@ -1288,18 +1288,18 @@ Definition ctx_rel (w : world) (c : ctx) : Prop :=
   | None => am_get (w_refs w) (w_head w) = None
   end.
 
-Lemma load_ctx_at : forall b w B (f : ctx -> M B) Q,
-  (forall c, ctx_rel w c -> hoare (CInv b) (CG b) (eq w) (f c) Q) ->
-  hoare (CInv b) (CG b) (eq w) (bind load_ctx f) Q.
+Lemma load_ctx_at : forall w B (f : ctx -> M B) Q,
+  (forall c, ctx_rel w c -> hoare CInv CG (eq w) (f c) Q) ->
+  hoare CInv CG (eq w) (bind load_ctx f) Q.
 Proof.
-  intros b w B f Q H. unfold load_ctx. hsteps.
+  intros w B f Q H. unfold load_ctx. hsteps.
   - apply H. unfold ctx_rel. cbn [x_l x_g x_headc]. repeat split; assumption.
   - apply H. unfold ctx_rel. cbn [x_l x_g x_headc]. repeat split; assumption.
 Qed.
 
-Lemma cmd_init_conn : forall b, emits (CInv b) (CG b) cmd_init.
+Lemma cmd_init_conn : emits CInv CG cmd_init.
 Proof.
-  intro b. hinline. hsteps.
+  hinline. hsteps.
   - apply emit_ok; [|assumption]. intros. cbn [Gc].
     match goal with Hg : negb (w_inited _) = true |- _ => apply negb_true_iff in Hg; exact Hg end.
   - exact Logic.I.
@@ -1308,10 +1308,10 @@ Qed.
 Lemma gc_cfg_written : forall c cf, cfg_of (cfg_written c) = Some cf -> cfg_nonl cf.
 Proof. intros c cf H. cbn [cfg_written cfg_of] in H. apply (cfg_load_nonl _ _ H). Qed.
 
-Lemma cmd_config_conn : forall b c global args w,
-  hoare (CInv b) (CG b) (eq w) (cmd_config c global args) (fun _ _ => True).
+Lemma cmd_config_conn : forall c global args w,
+  hoare CInv CG (eq w) (cmd_config c global args) (fun _ _ => True).
 Proof.
-  intros b c global args w. hinline. hsteps; try exact Logic.I.
+  intros c global args w. hinline. hsteps; try exact Logic.I.
   all: try (apply emit_ok; [|assumption]; intros; cbn [Gc]; first [apply gc_cfg_written | idtac]).
   all: try (intros cf Hcf; cbn [cfg_of] in Hcf; injection Hcf as <-; constructor).
 Qed.
@@ -1336,14 +1336,14 @@ Lemma obj_id_length : forall k d, length (obj_id k d) = 20.
 Proof. intros k d. unfold obj_id. apply sha1_length. Qed.
 
 (* the body shared by the two branches of [add_file] *)
-Lemma add_file_body : forall b w p data,
+Lemma add_file_body : forall w p data,
   am_get (w_files w) p = Some data ->
-  hoare (CInv b) (CG b) (eq w)
+  hoare CInv CG (eq w)
     (put_obj KBlob data ;;;
      emit (ESetIndex (match idx_update (idx_of w) (obj_id KBlob data) p with Some i => i | None => idx_of w end)))
     (fun _ _ => True).
 Proof.
-  intros b w p data Hf. unfold put_obj. hsteps.
+  intros w p data Hf. unfold put_obj. hsteps.
   - apply emit_ok; [|assumption]. intros. cbn [Gc]. exists KBlob, data.
     split; [reflexivity|]. split; [reflexivity|]. intros _. exact Logic.I.
   - apply emit_ok_last; [|assumption|exact Logic.I]. intros Hnb Hnb0 Hg Hh. cbn [Gc].
@@ -1355,16 +1355,16 @@ Proof.
       apply (Hwt (p, data)). apply am_get_In. exact Hf.
 Qed.
 
-Lemma add_file_conn : forall b p, emits (CInv b) (CG b) (add_file p).
+Lemma add_file_conn : forall p, emits CInv CG (add_file p).
 Proof.
-  intros b p. hinline. hsteps; try exact Logic.I.
+  intros p. hinline. hsteps; try exact Logic.I.
   - apply add_file_body. assumption.
   - apply add_file_body. assumption.
 Qed.
 
-Lemma emits_at : forall b A (m : M A) w, emits (CInv b) (CG b) m ->
-  hoare (CInv b) (CG b) (eq w) m (fun _ _ => True).
-Proof. intros b A m w H. apply hoare_at with (P := fun _ => True); [exact H | exact Logic.I]. Qed.
+Lemma emits_at : forall A (m : M A) w, emits CInv CG m ->
+  hoare CInv CG (eq w) m (fun _ _ => True).
+Proof. intros A m w H. apply hoare_at with (P := fun _ => True); [exact H | exact Logic.I]. Qed.
 
 Ltac gc_idx_delete :=
   intros ?Hnb ?Hnb0 ?Hg ?Hh; cbn [Gc];
@@ -1372,9 +1372,9 @@ Ltac gc_idx_delete :=
   | He : idx_delete _ _ = Some _, Hg : GoodNH _ |- _ => apply (idx_delete_good _ _ _ _ (g_idx _ Hg) He)
   end.
 
-Lemma cmd_add_conn : forall b c args, emits (CInv b) (CG b) (cmd_add c args).
+Lemma cmd_add_conn : forall c args, emits CInv CG (cmd_add c args).
 Proof.
-  intros b c args. hinline. hsteps.
+  intros c args. hinline. hsteps.
   apply at_bind_iterM with (J := fun _ => True).
   - intros _. exact Logic.I.
   - intros a w' _ Hi' _. hsteps; try exact Logic.I.
@@ -1386,16 +1386,16 @@ Proof.
   - intros w' _ _. hsteps. exact Logic.I.
 Qed.
 
-Lemma rm_one_conn : forall b p, emits (CInv b) (CG b) (rm_one p).
+Lemma rm_one_conn : forall p, emits CInv CG (rm_one p).
 Proof.
-  intros b p. hinline. hsteps; try exact Logic.I.
+  intros p. hinline. hsteps; try exact Logic.I.
   all: try emit_triv.
   all: try (apply emit_ok_last; [gc_idx_delete | assumption | exact Logic.I]).
 Qed.
 
-Lemma cmd_rm_conn : forall b args, emits (CInv b) (CG b) (cmd_rm args).
+Lemma cmd_rm_conn : forall args, emits CInv CG (cmd_rm args).
 Proof.
-  intros b args. hinline. hsteps.
+  intros args. hinline. hsteps.
   apply at_bind_iterM with (J := fun _ => True).
   - intros _. exact Logic.I.
   - intros a w' _ Hi' _. hsteps; try exact Logic.I.
@@ -1405,50 +1405,50 @@ Proof.
   - intros w' _ _. hsteps. exact Logic.I.
 Qed.
 
-Lemma head_update_conn : forall b name, emits (CInv b) (CG b) (head_update name).
+Lemma head_update_conn : forall name, emits CInv CG (head_update name).
 Proof.
-  intros b name. hinline. hsteps; try exact Logic.I.
+  intros name. hinline. hsteps; try exact Logic.I.
   apply emit_ok; [|assumption]. intros Hnb Hnb0 Hg Hh. cbn [Gc]. right.
   apply am_mem_true. eexists. eassumption.
 Qed.
 
-Lemma cmd_update_ref_conn : forall b args w, w_inited w = true ->
-  hoare (CInv b) (CG b) (eq w) (cmd_update_ref args) (fun _ _ => True).
+Lemma cmd_update_ref_conn : forall args w, w_inited w = true ->
+  hoare CInv CG (eq w) (cmd_update_ref args) (fun _ _ => True).
 Proof.
-  intros b args w Hin. hinline. hsteps; try exact Logic.I.
+  intros args w Hin. hinline. hsteps; try exact Logic.I.
   - apply emit_ok; [|assumption]. intros Hnb Hnb0 Hg Hh. cbn [Gc].
     split; [exact Hin|]. split; [eexists; eassumption|].
     intro Hr. match goal with Hm : am_mem (w_refs w) _ = true |- _ => rewrite Hr in Hm; discriminate Hm end.
   - apply at_bind_emits; [apply head_update_conn|]. intros ? w' Hi'. hsteps. exact Logic.I.
 Qed.
 
-Lemma head_tree_nodes_conn : forall b c, emits (CInv b) (CG b) (head_tree_nodes c).
-Proof. intros b c. hinline. hsteps; exact Logic.I. Qed.
+Lemma head_tree_nodes_conn : forall c, emits CInv CG (head_tree_nodes c).
+Proof. intros c. hinline. hsteps; exact Logic.I. Qed.
 
-Lemma cmd_status_conn : forall b c, emits (CInv b) (CG b) (cmd_status c).
+Lemma cmd_status_conn : forall c, emits CInv CG (cmd_status c).
 Proof.
-  intros b c. hinline. hsteps.
+  intros c. hinline. hsteps.
   apply at_bind_emits; [apply head_tree_nodes_conn|]. intros ns w' Hi'. hsteps. exact Logic.I.
 Qed.
 
-Lemma cmd_log_conn : forall b c n, emits (CInv b) (CG b) (cmd_log c n).
-Proof. intros b c n. hinline. hsteps; exact Logic.I. Qed.
+Lemma cmd_log_conn : forall c n, emits CInv CG (cmd_log c n).
+Proof. intros c n. hinline. hsteps; exact Logic.I. Qed.
 
-Lemma cmd_reflog_conn : forall b, emits (CInv b) (CG b) cmd_reflog.
-Proof. intros b. hinline. hsteps; exact Logic.I. Qed.
+Lemma cmd_reflog_conn : emits CInv CG cmd_reflog.
+Proof. hinline. hsteps; exact Logic.I. Qed.
 
-Lemma cmd_cat_file_conn : forall b t p args, emits (CInv b) (CG b) (cmd_cat_file t p args).
-Proof. intros b t p args. hinline. hsteps; exact Logic.I. Qed.
+Lemma cmd_cat_file_conn : forall t p args, emits CInv CG (cmd_cat_file t p args).
+Proof. intros t p args. hinline. hsteps; exact Logic.I. Qed.
 
-Lemma cmd_ls_files_conn : forall b s, emits (CInv b) (CG b) (cmd_ls_files s).
-Proof. intros b s. hinline. hsteps; exact Logic.I. Qed.
+Lemma cmd_ls_files_conn : forall s, emits CInv CG (cmd_ls_files s).
+Proof. intros s. hinline. hsteps; exact Logic.I. Qed.
 
 (* the two commands with a local recursive loop: it performs no effect *)
-Ltac pure_fix_loop b :=
+Ltac pure_fix_loop :=
   match goal with
   | |- hoare _ _ (eq ?w0) (?g ?args) _ =>
       let Hgen := fresh "Hgen" in
-      assert (Hgen : hoare (CInv b) (CG b) (eq w0) (g args) (fun _ w' => w' = w0));
+      assert (Hgen : hoare CInv CG (eq w0) (g args) (fun _ w' => w' = w0));
       [ induction args as [|a r IH]; cbv beta iota; hsteps; try reflexivity;
         apply at_bind with (R := fun _ w' => w' = w0); [exact IH|];
         let rest := fresh "rest" in let w1 := fresh "w1" in
@@ -1456,11 +1456,11 @@ Ltac pure_fix_loop b :=
       | apply (hoare_conseq _ _ _ _ _ _ _ _ Hgen); auto ]
   end.
 
-Lemma cmd_hash_object_conn : forall b args, emits (CInv b) (CG b) (cmd_hash_object args).
-Proof. intros b args. hinline. hsteps. pure_fix_loop b. Qed.
+Lemma cmd_hash_object_conn : forall args, emits CInv CG (cmd_hash_object args).
+Proof. intros args. hinline. hsteps. pure_fix_loop. Qed.
 
-Lemma cmd_rev_parse_conn : forall b args, emits (CInv b) (CG b) (cmd_rev_parse args).
-Proof. intros b args. hinline. hsteps. pure_fix_loop b. Qed.
+Lemma cmd_rev_parse_conn : forall args, emits CInv CG (cmd_rev_parse args).
+Proof. intros args. hinline. hsteps. pure_fix_loop. Qed.
 
 Ltac solve_later := repeat apply later_step; apply later_refl.
 (* [~ Bad w0] from [~ Bad] of a world reached from [w0] by explicit effects *)
@@ -1475,24 +1475,24 @@ Ltac emit_with tac :=
   first [ apply emit_ok; [tac | assumption]
         | apply emit_ok_last; [tac | assumption | try exact Logic.I] ].
 
-Lemma wt_put_conn : forall b p data w, (~ Bad w -> valid_path p) ->
-  hoare (CInv b) (CG b) (eq w) (wt_put p data) (fun _ w' => later w w').
+Lemma wt_put_conn : forall p data w, (~ Bad w -> valid_path p) ->
+  hoare CInv CG (eq w) (wt_put p data) (fun _ w' => later w w').
 Proof.
-  intros b p data w Hv. hinline. hsteps.
+  intros p data w Hv. hinline. hsteps.
   all: try emit_triv.
   all: try (apply emit_ok_last; [intros Hnb Hnb0 Hg Hh; cbn [Gc]; apply Hv; not_bad_back w | assumption | solve_later]).
 Qed.
 
-Lemma restore_wd_conn : forall b p, emits (CInv b) (CG b) (restore_wd p).
+Lemma restore_wd_conn : forall p, emits CInv CG (restore_wd p).
 Proof.
-  intros b p. hinline. hsteps.
+  intros p. hinline. hsteps.
   match goal with |- hoare _ _ (eq ?w0) (wt_put _ ?d) _ =>
     assert (Hv : ~ Bad w0 -> valid_path p) end.
-  { intro Hnb. match goal with Hi : CInv b _ |- _ => destruct (Hi Hnb) as [Hg _] end.
+  { intro Hnb. match goal with Hi : CInv _ |- _ => destruct (Hi Hnb) as [Hg _] end.
     match goal with He : get_entry _ _ = Some _ |- _ => apply get_entry_In in He; destruct He as [Hin Hp] end.
     pose proof (g_idx _ Hg) as Hgi. rewrite Forall_forall in Hgi. destruct (Hgi _ Hin) as [_ [_ Hvp]].
     rewrite <- Hp. exact Hvp. }
-  apply (hoare_conseq _ _ _ _ _ _ _ _ (wt_put_conn b p _ _ Hv)); auto.
+  apply (hoare_conseq _ _ _ _ _ _ _ _ (wt_put_conn p _ _ Hv)); auto.
 Qed.
 
 Definition NG (ns : list node) (w : world) : Prop := ~ Bad w -> Forall (node_good (w_objs w)) ns.
@@ -1514,10 +1514,10 @@ Proof.
   intro X. apply Hnb. apply (proj2 (bad_not_put (ESetIndex es) w eq_refl)). exact X.
 Qed.
 
-Lemma restore_index_conn : forall b ns p,
-  hoare (CInv b) (CG b) (NG ns) (restore_index ns p) (fun _ => NG ns).
+Lemma restore_index_conn : forall ns p,
+  hoare CInv CG (NG ns) (restore_index ns p) (fun _ => NG ns).
 Proof.
-  intros b ns p. apply hoare_world. intros w Hi Hng. hinline. hsteps; try assumption.
+  intros ns p. apply hoare_world. intros w Hi Hng. hinline. hsteps; try assumption.
   all: try (apply emit_ok_last; [gc_idx_delete | assumption | apply NG_set_index; exact Hng]).
   all: apply emit_ok_last; [ | assumption | apply NG_set_index; exact Hng].
   all: intros Hnb Hnb0 Hg Hh; cbn [Gc];
@@ -1528,11 +1528,11 @@ Proof.
     end.
 Qed.
 
-Lemma head_tree_nodes_spec : forall b c w,
-  hoare (CInv b) (CG b) (eq w) (head_tree_nodes c) (fun ns w' => w' = w /\ NG ns w).
+Lemma head_tree_nodes_spec : forall c w,
+  hoare CInv CG (eq w) (head_tree_nodes c) (fun ns w' => w' = w /\ NG ns w).
 Proof.
-  intros b c w. hinline. hsteps.
-  - split; [reflexivity|]. intro Hnb. match goal with Hi : CInv b _ |- _ => destruct (Hi Hnb) as [Hg _] end.
+  intros c w. hinline. hsteps.
+  - split; [reflexivity|]. intro Hnb. match goal with Hi : CInv _ |- _ => destruct (Hi Hnb) as [Hg _] end.
     match goal with
     | Hk : get_kind _ KTree _ = Some ?d, Hw : walk_tree _ _ ?d = Some _ |- _ =>
         apply (walk_good _ (g_trees _ Hg) _ _ _ (g_trees _ Hg _ _ Hk) Hw)
@@ -1540,9 +1540,9 @@ Proof.
   - split; [reflexivity|]. intros _. constructor.
 Qed.
 
-Lemma cmd_restore_conn : forall b c staged args, emits (CInv b) (CG b) (cmd_restore c staged args).
+Lemma cmd_restore_conn : forall c staged args, emits CInv CG (cmd_restore c staged args).
 Proof.
-  intros b c staged args. hinline. destruct staged; cbv beta iota.
+  intros c staged args. hinline. destruct staged; cbv beta iota.
   - hsteps.
     apply at_bind with (R := fun ns w' => w' = w /\ NG ns w); [apply head_tree_nodes_spec|].
     intros ns w' _ [-> Hng]. hsteps.
@@ -1559,11 +1559,11 @@ Proof.
     + intros w' _ _. hsteps. exact Logic.I.
 Qed.
 
-Lemma cmd_reset_conn : forall b e c soft mixed hard args w,
+Lemma cmd_reset_conn : forall e c soft mixed hard args w,
   w_inited w = true -> ctx_rel w c ->
-  hoare (CInv b) (CG b) (eq w) (cmd_reset e c soft mixed hard args) (fun _ _ => True).
+  hoare CInv CG (eq w) (cmd_reset e c soft mixed hard args) (fun _ _ => True).
 Proof.
-  intros b e c soft mixed hard args w Hin Hctx. hinline. hsteps; try exact Logic.I.
+  intros e c soft mixed hard args w Hin Hctx. hinline. hsteps; try exact Logic.I.
   all: try emit_triv.
   - (* ESetRef HEAD's branch := target *)
     apply emit_ok; [|assumption]. intros Hnb Hnb0 Hg Hh. cbn [Gc].
@@ -1586,7 +1586,7 @@ Proof.
       match goal with |- hoare _ _ (eq w') (wt_put ?q ?d) _ =>
         assert (Hv : ~ Bad w' -> valid_path q) end.
       { intro Hnb. pose proof (HJ Hnb) as Hall. rewrite Forall_forall in Hall. apply (Hall en Hen). }
-      apply (hoare_conseq _ _ _ _ _ _ _ _ (wt_put_conn b _ _ _ Hv)); [auto|].
+      apply (hoare_conseq _ _ _ _ _ _ _ _ (wt_put_conn _ _ _ Hv)); [auto|].
       intros _ w'' _ Hl Hnb. apply HJ. apply Hl. exact Hnb.
     + intros w' _ _. hsteps. exact Logic.I.
 Qed.
@@ -1601,11 +1601,11 @@ Ltac gc_setref_head Hin Hctx c :=
   split; [exact Hin|]; split;
   [eexists; exact Hcm | let Hr := fresh "Hr" in intro Hr; rewrite Hr in Hhead; discriminate Hhead].
 
-Lemma cmd_switch_conn : forall b e c args create w,
+Lemma cmd_switch_conn : forall e c args create w,
   w_inited w = true -> ctx_rel w c ->
-  hoare (CInv b) (CG b) (eq w) (cmd_switch e c args create) (fun _ _ => True).
+  hoare CInv CG (eq w) (cmd_switch e c args create) (fun _ _ => True).
 Proof.
-  intros b e c args create w Hin Hctx. hinline. hsteps; try exact Logic.I.
+  intros e c args create w Hin Hctx. hinline. hsteps; try exact Logic.I.
   all: try emit_triv.
   all: try (apply emit_ok; [gc_setref_head Hin Hctx c | assumption]).
   all: try (apply at_bind_emits; [apply head_update_conn|]; intros ? w' Hi'; hsteps; try exact Logic.I; try emit_triv).
@@ -1617,28 +1617,30 @@ Proof.
             end).
 Qed.
 
-Lemma rename_then_mem : forall (W : world) o n,
-  am_mem (w_refs W) o = true -> am_mem (w_refs (apply_effect (ERenameRef o n) W)) n = true.
+Lemma cmd_branch_conn : forall e c args lst rename delete w,
+  w_inited w = true -> ctx_rel w c ->
+  hoare CInv CG (eq w) (cmd_branch e c args lst rename delete) (fun _ _ => True).
 Proof.
-  intros W o n H. rewrite w_refs_ERenameRef. apply am_mem_true in H. destruct H as [v Hv].
-  rewrite Hv. unfold am_mem. rewrite am_get_set_same. reflexivity.
-Qed.
-
-Lemma cmd_branch_conn : forall b e c args lst rename delete w,
-  (b = true \/ rename = []) -> w_inited w = true -> ctx_rel w c ->
-  hoare (CInv b) (CG b) (eq w) (cmd_branch e c args lst rename delete) (fun _ _ => True).
-Proof.
-  intros b e c args lst rename delete w Hb Hin Hctx. hinline. cbv zeta. hsteps; try exact Logic.I.
+  intros e c args lst rename delete w Hin Hctx.
+  destruct args as [|a [|a' l]]; destruct lst; destruct rename as [|r0 rn]; destruct delete as [|d0 dl];
+    hinline; cbv zeta; cbn [is_nil negb length Nat.eqb andb orb]; hsteps; try exact Logic.I;
+    try match goal with Hf : false = true |- _ => discriminate Hf end.
   all: try emit_triv.
   all: try (apply emit_ok; [gc_setref_head Hin Hctx c | assumption]).
   all: apply emit_ok; [|assumption]; intros Hnb Hnb0 Hg Hh; cbn [Gc].
-  all: try (split; [assumption|]; destruct Hb as [Hb|Hb]; [left; exact Hb|]; exfalso;
-            match goal with Hr : negb (is_nil ?r) = true |- _ => rewrite Hb in Hr; discriminate Hr end).
-  all: try (right; apply rename_then_mem; assumption).
-  all: match goal with
-       | Hd : negb (bytes_eqb ?d ?h) = true |- ?d <> ?h =>
-           apply negb_true_iff in Hd; apply bytes_eqb_neq in Hd; exact Hd
-       end.
+  - (* --delete: not the current branch *)
+    match goal with
+    | Hd : negb (bytes_eqb ?d ?h) = true |- ?d <> ?h =>
+        apply negb_true_iff in Hd; apply bytes_eqb_neq in Hd; exact Hd
+    end.
+  - (* --rename, HEAD is pointed at the new branch: it was written just before *)
+    right. rewrite w_refs_ESetRef. unfold am_mem. rewrite am_get_set_same. reflexivity.
+  - (* --rename, the old branch is removed: HEAD no longer names it *)
+    rewrite w_head_ESetHead. intro Heq.
+    match goal with
+    | Hnew : negb (am_mem (w_refs w) ?n) = true, Hold : am_mem (w_refs w) (w_head w) = true |- _ =>
+        rewrite Heq in Hold; rewrite Hold in Hnew; discriminate Hnew
+    end.
 Qed.
 
 Lemma commit_ok_len : forall st id, commit_ok st id -> length id = 20.
@@ -1648,10 +1650,10 @@ Proof.
   apply get_kind_iff in E. apply (get_obj_id_length _ _ _ E).
 Qed.
 
-Lemma do_commit_conn : forall b e c msg w, w_inited w = true -> ctx_rel w c ->
-  hoare (CInv b) (CG b) (eq w) (do_commit e c msg) (fun _ _ => True).
+Lemma do_commit_conn : forall e c msg w, w_inited w = true -> ctx_rel w c ->
+  hoare CInv CG (eq w) (do_commit e c msg) (fun _ _ => True).
 Proof.
-  intros b e c msg w Hin Hctx. hinline. hsteps.
+  intros e c msg w Hin Hctx. hinline. hsteps.
   apply write_trees_at; [assumption|]. intros w' Hi' Hm Hr. cbv zeta.
   match goal with |- context [commit_text ?a ?p ?s1 ?s2 ?m] => set (data := commit_text a p s1 s2 m) end.
   hsteps. hinline. hsteps; try exact Logic.I.
@@ -1694,25 +1696,27 @@ Proof.
     autorewrite with wfields. unfold am_mem. rewrite am_get_set_same. reflexivity.
 Qed.
 
-Lemma cmd_commit_conn : forall b e c msg w, w_inited w = true -> ctx_rel w c ->
-  hoare (CInv b) (CG b) (eq w) (cmd_commit e c msg) (fun _ _ => True).
+Lemma cmd_commit_conn : forall e c msg w, w_inited w = true -> ctx_rel w c ->
+  hoare CInv CG (eq w) (cmd_commit e c msg) (fun _ _ => True).
 Proof.
-  intros b e c msg w Hin Hctx. hinline. hsteps.
+  intros e c msg w Hin Hctx. hinline. hsteps.
   - apply at_bind with (R := fun _ _ => True); [apply do_commit_conn; assumption|].
     intros ? w' _ _. hsteps. exact Logic.I.
   - apply at_bind with (R := fun _ w' => w' = w).
-    + apply (hoare_conseq _ _ _ _ _ _ _ _ (head_tree_nodes_spec b c w)); [auto|]. intros ? ? _ [-> _]. reflexivity.
+    + apply (hoare_conseq _ _ _ _ _ _ _ _ (head_tree_nodes_spec c w)); [auto|]. intros ? ? _ [-> _]. reflexivity.
     + intros ns w' _ ->. hsteps.
       apply at_bind with (R := fun _ _ => True); [apply do_commit_conn; assumption|].
       intros ? w' _ _. hsteps. exact Logic.I.
 Qed.
 
+(* [branch --rename]: no theorem excepts it any more; the predicate only says
+   what kind of command the witness of [crash_window_rename_closed] is *)
 Definition is_rename (c : cmd) : Prop :=
   match c with CBranch _ _ rename _ => rename <> [] | _ => False end.
 
-Theorem run_cmd_conn : forall b e c, (b = true \/ ~ is_rename c) -> emits (CInv b) (CG b) (run_cmd e c).
+Theorem run_cmd_conn : forall e c, emits CInv CG (run_cmd e c).
 Proof.
-  intros b e c Hb. hinline. hsteps.
+  intros e c. hinline. hsteps.
   all: try (apply emits_at; apply cmd_init_conn).
   all: match goal with Hi : w_inited ?w = true |- _ => apply load_ctx_at; intros x Hx end.
   - apply cmd_config_conn.
@@ -1720,9 +1724,7 @@ Proof.
   - apply emits_at. apply cmd_rm_conn.
   - apply cmd_commit_conn; assumption.
   - apply emits_at. apply cmd_status_conn.
-  - apply cmd_branch_conn; try assumption.
-    destruct Hb as [Hb|Hb]; [left; exact Hb|]. right. cbn [is_rename] in Hb.
-    destruct rename as [|x0 r0]; [reflexivity|]. exfalso. apply Hb. discriminate.
+  - apply cmd_branch_conn; assumption.
   - apply cmd_switch_conn; assumption.
   - apply cmd_reset_conn; assumption.
   - apply emits_at. apply cmd_restore_conn.
@@ -1743,7 +1745,7 @@ Qed.
 Lemma not_bad_empty : ~ Bad w_empty.
 Proof. intros [H|(id & p & H & _)]; discriminate H. Qed.
 
-Lemma good_empty : Good false w_empty.
+Lemma good_empty : Good w_empty.
 Proof.
   split.
   - constructor; cbn.
@@ -1755,7 +1757,7 @@ Proof.
     + constructor.
     + split; intros c H; injection H as <-; constructor.
     + right. reflexivity.
-  - right. left. reflexivity.
+  - left. reflexivity.
 Qed.
 
 Theorem connected_init : Connected w_empty.
@@ -1764,10 +1766,10 @@ Proof. apply good_connected. apply good_empty. Qed.
 Lemma bad_set_wt : forall w f d, Bad (set_wt w f d) <-> Bad w.
 Proof. intros w f d. unfold Bad. cbn [set_wt w_coll w_objs]. tauto. Qed.
 
-Lemma good_set_wt : forall b w f d,
-  Forall (fun kv : bytes * bytes => valid_path (fst kv)) f -> Good b w -> Good b (set_wt w f d).
+Lemma good_set_wt : forall w f d,
+  Forall (fun kv : bytes * bytes => valid_path (fst kv)) f -> Good w -> Good (set_wt w f d).
 Proof.
-  intros b w f d Hf [Hg Hh]. split.
+  intros w f d Hf [Hg Hh]. split.
   - constructor.
     + apply (g_refs w Hg).
     + apply (g_idx w Hg).
@@ -1780,9 +1782,9 @@ Proof.
   - exact Hh.
 Qed.
 
-Lemma edit_inv : forall b u w, edit_ok u -> CInv b w -> CInv b (apply_edit u w).
+Lemma edit_inv : forall u w, edit_ok u -> CInv w -> CInv (apply_edit u w).
 Proof.
-  intros b u w Hok Hi. destruct u as [p d | p | p | p]; cbn [apply_edit].
+  intros u w Hok Hi. destruct u as [p d | p | p | p]; cbn [apply_edit].
   - apply Inv_step.
     + destruct (parent_dir p); [apply Inv_step; [exact Hi | intros _; exact Logic.I] | exact Hi].
     + intros _. exact Hok.
@@ -1795,146 +1797,41 @@ Proof.
   - apply Inv_step; [exact Hi | intros _; exact Logic.I].
 Qed.
 
-(** ** fault-free runs: whatever the outcome, where the command stops *)
-(* a small weakest-precondition calculus for runs WITHOUT an injected fault;
-   unlike [hoare] it also speaks about the world in which a command that
-   reports an error stops.  Only used for the HEAD clause at the end of
-   [branch --rename]. *)
-Definition nf {A} (m : M A) (w : world) (Qok : A -> world -> Prop) (Qerr : world -> Prop) : Prop :=
-  forall t, match m (mkMS w t None) with
-            | (Ok a, s') => ms_fault s' = None /\ Qok a (ms_w s')
-            | (_, s') => Qerr (ms_w s')
-            end.
-
-Lemma nf_ret : forall A (a : A) w (Qok : A -> world -> Prop) Qerr, Qok a w -> nf (ret a) w Qok Qerr.
-Proof. intros A a w Qok Qerr H t. cbn. auto. Qed.
-Lemma nf_fail : forall A w (Qok : A -> world -> Prop) (Qerr : world -> Prop), Qerr w -> nf (@fail A) w Qok Qerr.
-Proof. intros A w Qok Qerr H t. cbn. exact H. Qed.
-Lemma nf_bind : forall A B (m : M A) (f : A -> M B) w (Qok : B -> world -> Prop) Qerr,
-  nf m w (fun a w' => nf (f a) w' Qok Qerr) Qerr -> nf (bind m f) w Qok Qerr.
-Proof.
-  intros A B m f w Qok Qerr H t. specialize (H t). unfold bind.
-  destruct (m (mkMS w t None)) as [[a| |] s']; [|exact H|exact H].
-  destruct H as [Hf Hk]. destruct s' as [w' t' fk]. cbn [ms_fault ms_w] in *. subst fk. apply Hk.
-Qed.
-Lemma nf_getw : forall w (Qok : world -> world -> Prop) Qerr, Qok w w -> nf getw w Qok Qerr.
-Proof. intros w Qok Qerr H t. cbn. auto. Qed.
-Lemma nf_guard : forall b w (Qok : unit -> world -> Prop) (Qerr : world -> Prop),
-  (b = true -> Qok tt w) -> (b = false -> Qerr w) -> nf (guard b) w Qok Qerr.
-Proof. intros b w Qok Qerr H1 H2 t. destruct b; cbn; auto. Qed.
-Lemma nf_of_opt : forall A (o : option A) w (Qok : A -> world -> Prop) (Qerr : world -> Prop),
-  (forall a, o = Some a -> Qok a w) -> (o = None -> Qerr w) -> nf (of_opt o) w Qok Qerr.
-Proof. intros A o w Qok Qerr H1 H2 t. destruct o; cbn; auto. Qed.
-Lemma nf_emit : forall e w (Qok : unit -> world -> Prop) Qerr,
-  Qok tt (apply_effect e w) -> nf (emit e) w Qok Qerr.
-Proof. intros e w Qok Qerr H t. cbn. auto. Qed.
-
-Ltac nfstep :=
-  lazymatch goal with
-  | |- nf (bind _ _) _ _ _ => apply nf_bind
-  | |- nf (ret _) _ _ _ => apply nf_ret
-  | |- nf fail _ _ _ => apply nf_fail
-  | |- nf getw _ _ _ => apply nf_getw
-  | |- nf (guard _) _ _ _ => apply nf_guard; intro
-  | |- nf (of_opt _) _ _ _ => apply nf_of_opt; [intros ? ? | intro]
-  | |- nf (emit _) _ _ _ => apply nf_emit
-  | |- nf (let _ := _ in _) _ _ _ => cbv zeta
-  | |- nf (match ?x with _ => _ end) _ _ _ => destruct x eqn:?; cbv beta iota
-  end.
-
-Lemma nf_load_ctx : forall w (Qok : ctx -> world -> Prop) (Qerr : world -> Prop),
-  (forall x, Qok x w) -> Qerr w -> nf load_ctx w Qok Qerr.
-Proof. intros w Qok Qerr H1 H2. unfold load_ctx. repeat nfstep; auto. Qed.
-
-Lemma HeadOk_renamed : forall w n W,
-  am_mem (w_refs w) (w_head w) = true ->
-  w_refs W = w_refs (apply_effect (ERenameRef (w_head w) n) w) -> w_head W = n -> HeadOk W.
-Proof.
-  intros w n W Hm Hr Hh. right. rewrite Hr, Hh. apply rename_then_mem. exact Hm.
-Qed.
-
-Lemma branch_rename_headok : forall e x args lst rename delete w,
-  rename <> [] -> HeadOk w ->
-  nf (cmd_branch e x args lst rename delete) w (fun _ => HeadOk) HeadOk.
-Proof.
-  intros e x args lst rename delete w Hne Hh.
-  destruct rename as [|r0 rename]; [contradiction|].
-  unfold cmd_branch. cbv zeta. cbn [is_nil negb].
-  destruct args as [|a [|a' l]]; destruct lst; destruct delete as [|d0 delete];
-    cbn [is_nil negb length Nat.eqb andb orb].
-  all: repeat nfstep; try assumption; try discriminate.
-  all: match goal with
-       | Hm : am_mem (w_refs ?w0) (w_head ?w0) = true |- context [ESetHead ?n] =>
-           apply (HeadOk_renamed w0 n _ Hm); autorewrite with wfields; reflexivity
-       end.
-Qed.
-
-Lemma rename_headok : forall e c w r w' tr,
-  is_rename c -> HeadOk w -> run_m (run_cmd e c) w = (r, w', tr) -> HeadOk w'.
-Proof.
-  intros e c w r w' tr Hc Hh Hrun.
-  destruct c; cbn [is_rename] in Hc; try contradiction.
-  assert (Hnf : nf (run_cmd e (CBranch args list_flag rename delete)) w (fun _ => HeadOk) HeadOk).
-  { unfold run_cmd. repeat nfstep; try assumption.
-    apply nf_load_ctx; [|assumption]. intro x. apply branch_rename_headok; assumption. }
-  specialize (Hnf []). unfold run_m in Hrun.
-  destruct (run_cmd e (CBranch args list_flag rename delete) (mkMS w [] None)) as [r0 s'].
-  injection Hrun as _ <- _. destruct r0; [apply Hnf | exact Hnf | exact Hnf].
-Qed.
-
 (** ** C.1  every action preserves the invariant *)
-Lemma is_rename_dec : forall c, is_rename c \/ ~ is_rename c.
-Proof.
-  intros c. destruct c; cbn [is_rename]; try (right; exact (fun f : False => f)).
-  destruct rename as [|x r]; [right; intro H; apply H; reflexivity | left; discriminate].
-Qed.
-
-Lemma cmd_inv : forall b e c w r w' tr, (b = true \/ ~ is_rename c) -> CInv b w ->
+Lemma cmd_inv : forall e c w r w' tr, CInv w ->
   run_m (run_cmd e c) w = (r, w', tr) ->
-  CInv b w' /\ w' = apply_effects tr w /\ forall n, CInv b (apply_effects (firstn n tr) w).
+  CInv w' /\ w' = apply_effects tr w /\ forall n, CInv (apply_effects (firstn n tr) w).
 Proof.
-  intros b e c w r w' tr Hb Hi Hrun.
-  destruct (emits_sound (CInv b) (CG b) _ (run_cmd e c) w r w' tr (run_cmd_conn b e c Hb) Hi Hrun)
+  intros e c w r w' tr Hi Hrun.
+  destruct (emits_sound CInv CG _ (run_cmd e c) w r w' tr (run_cmd_conn e c) Hi Hrun)
     as (Hi' & Hw & _ & Hpre & _).
   auto.
 Qed.
 
-Lemma CInv_weaken : forall w, CInv false w -> CInv true w.
-Proof. intros w Hi Hnb. destruct (Hi Hnb) as [Hg _]. split; [exact Hg | left; reflexivity]. Qed.
-
-Lemma CInv_head : forall w, CInv false w -> ~ Bad w -> HeadOk w.
-Proof. intros w Hi Hnb. destruct (Hi Hnb) as [_ [X|X]]; [discriminate X | exact X]. Qed.
-
-Theorem inv_step : forall a w, action_ok a -> CInv false w -> CInv false (step_w a w).
+Theorem inv_step : forall a w, action_ok a -> CInv w -> CInv (step_w a w).
 Proof.
   intros [e c|u] w Hok Hi.
   - unfold step_w. cbn [step]. destruct (run_m (run_cmd e c) w) as [[r w'] tr] eqn:Erun.
-    assert (Hw' : CInv false w').
-    { destruct (is_rename_dec c) as [Hr|Hr].
-      - destruct (cmd_inv true e c w r w' tr (or_introl eq_refl) (CInv_weaken w Hi) Erun) as (Hi' & Hw & _).
-        intro Hnb'. destruct (Hi' Hnb') as [Hg _]. split; [exact Hg|]. right.
-        apply (rename_headok e c w r w' tr Hr); [|exact Erun].
-        apply CInv_head; [exact Hi|]. intro X. apply Hnb'. rewrite Hw. apply bad_sticky_trace. exact X.
-      - apply (cmd_inv false e c w r w' tr (or_intror Hr) Hi Erun). }
+    assert (Hw' : CInv w') by apply (cmd_inv e c w r w' tr Hi Erun).
     destruct r; exact Hw'.
   - unfold step_w. cbn [step fst]. apply edit_inv; assumption.
 Qed.
 
 (* the strengthened invariant, in the positive form *)
-Theorem good_step : forall a w, action_ok a -> Good false w -> ~ Bad (step_w a w) -> Good false (step_w a w).
+Theorem good_step : forall a w, action_ok a -> Good w -> ~ Bad (step_w a w) -> Good (step_w a w).
 Proof. intros a w Hok Hg Hnb. apply (inv_step a w Hok); [intros _; exact Hg | exact Hnb]. Qed.
 
-Theorem connected_step : forall a w, action_ok a -> Good false w -> ~ Bad (step_w a w) -> Connected (step_w a w).
+Theorem connected_step : forall a w, action_ok a -> Good w -> ~ Bad (step_w a w) -> Connected (step_w a w).
 Proof. intros a w Hok Hg Hnb. apply good_connected. apply good_step; assumption. Qed.
 
 (** ** C.2  all histories *)
-Theorem inv_run : forall h w, Forall action_ok h -> CInv false w -> CInv false (run h w).
+Theorem inv_run : forall h w, Forall action_ok h -> CInv w -> CInv (run h w).
 Proof.
   induction h as [|a h IH]; intros w Hall Hi; [exact Hi|].
   inversion Hall as [|? ? Ha Hh]; subst. rewrite run_cons. apply IH; [exact Hh|]. apply inv_step; assumption.
 Qed.
 
-Theorem good_run : forall h, Forall action_ok h -> ~ Bad (run h w_empty) -> Good false (run h w_empty).
+Theorem good_run : forall h, Forall action_ok h -> ~ Bad (run h w_empty) -> Good (run h w_empty).
 Proof. intros h Hall Hnb. apply (inv_run h w_empty Hall); [intros _; exact good_empty | exact Hnb]. Qed.
 
 Theorem connected_run : forall h, Forall action_ok h -> ~ Bad (run h w_empty) -> Connected (run h w_empty).
@@ -1991,34 +1888,25 @@ Proof.
 Qed.
 
 Theorem crash_safe : forall e c w r w' tr k,
-  CInv false w -> run_m (run_cmd e c) w = (r, w', tr) -> ~ Bad w' ->
-  ConnectedNoHead (apply_effects (firstn k tr) w) /\
-  (~ is_rename c -> Connected (apply_effects (firstn k tr) w)).
+  CInv w -> run_m (run_cmd e c) w = (r, w', tr) -> ~ Bad w' ->
+  Connected (apply_effects (firstn k tr) w).
 Proof.
   intros e c w r w' tr k Hi Hrun Hnb.
-  destruct (cmd_inv true e c w r w' tr (or_introl eq_refl) (CInv_weaken w Hi) Hrun) as (_ & Hw & Hpre).
+  destruct (cmd_inv e c w r w' tr Hi Hrun) as (_ & Hw & Hpre).
   assert (Hnbk : ~ Bad (apply_effects (firstn k tr) w)) by (apply prefix_not_bad; rewrite <- Hw; exact Hnb).
-  split.
-  - destruct (Hpre k Hnbk) as [Hg _]. apply good_connected_nh. exact Hg.
-  - intro Hr. destruct (cmd_inv false e c w r w' tr (or_intror Hr) Hi Hrun) as (_ & _ & Hpre').
-    apply good_connected. apply (Hpre' k Hnbk).
+  apply good_connected. apply (Hpre k Hnbk).
 Qed.
 
 (** ** C.5  one injected failure *)
 Theorem fault_safe : forall e c w k r s',
-  CInv false w -> run_cmd e c (mkMS w [] (Some k)) = (r, s') -> ~ Bad (ms_w s') ->
-  ConnectedNoHead (ms_w s') /\
-  (~ is_rename c -> Connected (ms_w s')) /\
+  CInv w -> run_cmd e c (mkMS w [] (Some k)) = (r, s') -> ~ Bad (ms_w s') ->
+  Connected (ms_w s') /\
   (forall r0 w0 tr, run_m (run_cmd e c) w = (r0, w0, tr) -> k < length tr ->
      r = Err /\ ms_w s' = apply_effects (firstn k tr) w).
 Proof.
-  intros e c w k r s' Hi Hrun Hnb. split; [|split].
-  - destruct (emits_sound_fault (CInv true) (CG true) _ (run_cmd e c) w k r s'
-                (run_cmd_conn true e c (or_introl eq_refl)) (CInv_weaken w Hi) Hrun) as (Hi' & _).
-    destruct (Hi' Hnb) as [Hg _]. apply good_connected_nh. exact Hg.
-  - intro Hr.
-    destruct (emits_sound_fault (CInv false) (CG false) _ (run_cmd e c) w k r s'
-                (run_cmd_conn false e c (or_intror Hr)) Hi Hrun) as (Hi' & _).
+  intros e c w k r s' Hi Hrun Hnb. split.
+  - destruct (emits_sound_fault CInv CG _ (run_cmd e c) w k r s'
+                (run_cmd_conn e c) Hi Hrun) as (Hi' & _).
     apply good_connected. apply (Hi' Hnb).
   - intros r0 w0 tr Hrun0 Hk. rewrite (cmd_fault_prefix e c w r0 w0 tr k Hrun0 Hk) in Hrun.
     injection Hrun as <- <-. split; reflexivity.
@@ -2043,8 +1931,7 @@ Qed.
 
 Corollary reachable_crash_safe : forall h e c r w' tr k,
   Forall action_ok h -> run_m (run_cmd e c) (run h w_empty) = (r, w', tr) -> ~ Bad w' ->
-  ConnectedNoHead (apply_effects (firstn k tr) (run h w_empty)) /\
-  (~ is_rename c -> Connected (apply_effects (firstn k tr) (run h w_empty))).
+  Connected (apply_effects (firstn k tr) (run h w_empty)).
 Proof.
   intros h e c r w' tr k Hall Hrun Hnb. apply (crash_safe e c _ r w' tr k); [|exact Hrun|exact Hnb].
   apply inv_run; [exact Hall | intros _; exact good_empty].
@@ -2052,7 +1939,7 @@ Qed.
 
 Corollary reachable_fault_safe : forall h e c k r s',
   Forall action_ok h -> run_cmd e c (mkMS (run h w_empty) [] (Some k)) = (r, s') -> ~ Bad (ms_w s') ->
-  ConnectedNoHead (ms_w s') /\ (~ is_rename c -> Connected (ms_w s')) /\
+  Connected (ms_w s') /\
   (forall r0 w0 tr, run_m (run_cmd e c) (run h w_empty) = (r0, w0, tr) -> k < length tr ->
      r = Err /\ ms_w s' = apply_effects (firstn k tr) (run h w_empty)).
 Proof.
@@ -2126,7 +2013,7 @@ Section Examples.
   Lemma ex_w1_run : run ex_hist1 w_empty = ex_w1.
   Proof. vm_compute. reflexivity. Qed.
 
-  Lemma ex_w0_good : Good false ex_w0.
+  Lemma ex_w0_good : Good ex_w0.
   Proof.
     rewrite <- ex_w0_run. apply good_run.
     - apply action_ok_b_ok. vm_compute. reflexivity.
@@ -2161,29 +2048,46 @@ Section Examples.
     - rewrite ex_w1_run. apply bad_b_false. vm_compute. reflexivity.
   Qed.
 
-  (* C.4  the crash window of [branch --rename] (finding K8): the branch file
-     is renamed first and HEAD is rewritten second; after the first of the two
-     effects HEAD names a branch that does not exist.  Before the command and
-     after it the repository is connected. *)
+  (* C.4  the crash window of [branch --rename] (finding K8) is closed.  The
+     command used to rename the branch file first and rewrite HEAD second, so
+     that after the first of the two effects HEAD named a branch that did not
+     exist.  It now writes the new branch file, points HEAD at it and only then
+     removes the old branch file.  On the witness that refuted the old order
+     (one commit on [main], renamed to [trunk]) the command performs eight
+     effects; HEAD and the branch names after 0, 1, 2 and 3 of them are listed,
+     and EVERY prefix state has HEAD naming an existing branch and is connected. *)
   Definition ex_rename : cmd := CBranch [] false (str "trunk") [].
 
-  Theorem crash_window_rename_refuted :
+  Theorem crash_window_rename_closed :
     exists w e c,
       is_rename c /\ Connected w /\
       ~ Bad (step_w (ACmd e c) w) /\ Connected (step_w (ACmd e c) w) /\
-      ~ HeadOk (apply_effects (firstn 1 (snd (step (ACmd e c) w))) w) /\
-      ~ Connected (apply_effects (firstn 1 (snd (step (ACmd e c) w))) w).
+      length (snd (step (ACmd e c) w)) = 8 /\
+      map (fun k => let w' := apply_effects (firstn k (snd (step (ACmd e c) w))) w in
+                    (w_head w', map fst (w_refs w'))) [0; 1; 2; 3]
+      = [ (str "main", [str "main"]);
+          (str "main", [str "main"; str "trunk"]);
+          (str "trunk", [str "main"; str "trunk"]);
+          (str "trunk", [str "trunk"]) ] /\
+      forall k, HeadOk (apply_effects (firstn k (snd (step (ACmd e c) w))) w) /\
+                Connected (apply_effects (firstn k (snd (step (ACmd e c) w))) w).
   Proof.
     exists ex_w0, ex_env, ex_rename.
     assert (Hnb : ~ Bad (step_w (ACmd ex_env ex_rename) ex_w0)).
     { apply bad_b_false. vm_compute. reflexivity. }
-    assert (Hh : ~ HeadOk (apply_effects (firstn 1 (snd (step (ACmd ex_env ex_rename) ex_w0))) ex_w0)).
-    { unfold HeadOk. vm_compute. intros [H|H]; discriminate H. }
     split; [discriminate|].
     split; [apply good_connected; exact ex_w0_good|].
     split; [exact Hnb|].
     split; [apply connected_step; [exact Logic.I | exact ex_w0_good | exact Hnb]|].
-    split; [exact Hh|]. intro Hc. apply Hh. apply connected_split in Hc. apply Hc.
+    split; [vm_compute; reflexivity|].
+    split; [vm_compute; reflexivity|].
+    intro k.
+    assert (Hc : Connected (apply_effects (firstn k (snd (step (ACmd ex_env ex_rename) ex_w0))) ex_w0)).
+    { rewrite step_trace_cmd.
+      destruct (run_m (run_cmd ex_env ex_rename) ex_w0) as [[r w'] tr] eqn:Erun. cbn [snd].
+      apply (crash_safe ex_env ex_rename ex_w0 r w' tr k); [intros _; exact ex_w0_good | exact Erun |].
+      rewrite step_w_cmd, Erun in Hnb. exact Hnb. }
+    split; [|exact Hc]. apply connected_split in Hc. apply Hc.
   Qed.
 
   (* why [action_ok] is needed: a file name containing NUL (which no file
@@ -2279,7 +2183,7 @@ Print Assumptions run_connected_or_collided.
 Print Assumptions crash_safe.
 Print Assumptions fault_safe.
 Print Assumptions refs_commits.
-Print Assumptions crash_window_rename_refuted.
+Print Assumptions crash_window_rename_closed.
 Print Assumptions nonvacuous.
 Print Assumptions nul_path_not_connected.
 Print Assumptions connected_not_inductive.
